@@ -87,6 +87,9 @@ def graph_specs(ctx) -> list[dict]:
     # with structurally equal duplicates left in (id-keyed analyses must count objects)
     specs += [{"family": "random_tagged", "seed": base + 2000 + i, "size": 35, "rdup": True} for i in range(nr)]
     specs += [{"family": "ladder", "depth": depths[0], "dup": True}, {"family": "diamond", "dup": True}]
+    # nested, shared functions in every visiting order (counts and call sites vs the reflective walk)
+    specs += [sp for sp in c13.nested_specs(ctx)]
+    specs += [dict(sp, tag="VFooTag") for sp in c13.nested_specs(ctx)[1:4]]
     return specs
 
 
@@ -214,6 +217,7 @@ class GraphCase:
         self.kinds_present = {self.v.kind(i) for i in range(len(self.v.nodes))}
         self.outer_kinds = {self.v.kind(i) for i in self.outer}
         self.dups = bool(c13.duplicates_within_namespace(self.v)) or c13.has_duplicates(self.v)
+        self.dups_ns = bool(c13.duplicates_within_namespace(self.v))    # within ONE namespace
         self.hx = self.v.sexp()
 
     def idx(self, obj):
@@ -522,6 +526,23 @@ def check_counts(ctx, t: ch.Tables, cases: list[GraphCase]):
             problems.append(f"get_node_multiplicities raised {type(mult.e).__name__}")
         if problems:
             dis += 1
+            diff = sorted(k for k in set(res[True][1]) | set(o_types) if res[True][1].get(k, 0) != o_types.get(k, 0))
+            # the recorded order-dependence concerns definitions that are called from the outer graph AND from inside
+            # another function's body, and only ever loses (never adds) such definitions
+            nested = [i for i in range(len(v.nodes)) if v.kind(i) == "FunctionDefinition" and _fd_reached(case, i)
+                      and _fd_called_from_a_body(case, i)]
+            lost = o_types.get("FunctionDefinition", 0) - res[True][1].get("FunctionDefinition", 0)
+            lost_nodup = o_nodup - res[False][0]
+            if diff == ["FunctionDefinition"] and nested and 0 < lost <= len(nested) and 0 <= lost_nodup <= len(nested):
+                ctx.violation("counts-order-dependent:NodeCountMapper:FunctionDefinition",
+                              f"get_num_nodes / get_node_type_counts on {case.spec}: {res[True][1].get('FunctionDefinition', 0)} "
+                              f"FunctionDefinition nodes counted, {o_types['FunctionDefinition']} are called from the outer "
+                              f"graph — a definition first met INSIDE another function's body is counted by a clone whose "
+                              f"counts are dropped and is then skipped (cached) at top level, so the result depends on the "
+                              f"order of the outputs",
+                              {"check": "counts", "graph": case.spec, "problems": problems,
+                               "observed_type_counts": res[True][1], "expected_type_counts": dict(o_types)})
+                continue
             ctx.violation("counts:NodeCountMapper",
                           f"node counts on {case.spec} disagree with the reflective walk: " + "; ".join(problems)[:400],
                           {"check": "counts", "graph": case.spec, "problems": problems})
@@ -535,6 +556,12 @@ def check_counts(ctx, t: ch.Tables, cases: list[GraphCase]):
             dis += 1
             ctx.broken.append(f"correspondence:counts-model:{case.spec}:real={res[True][0]},{res[False][0]}:model={a}")
     ctx.note_batch("node-counts", n, dis, exhaustive=False)
+
+
+def _fd_called_from_a_body(case: GraphCase, fd: int) -> bool:
+    v = case.v
+    return any(v.kind(i) == "Call" and any(k != -1 for k in case.ns[i])
+               and any(j == fd for _, ec, j in v.edges[i] if ec == "function") for i in range(len(v.nodes)))
 
 
 def _fd_reached(case: GraphCase, fd: int) -> bool:
@@ -668,7 +695,7 @@ def check_misc(ctx, t: ch.Tables, cases: list[GraphCase]):
             report_raise(ctx, t, "fn:get_num_call_sites", case, r.e)
         else:
             oracle = sum(1 for i in range(len(v.nodes)) if v.kind(i) == "Call")
-            if r != oracle and not case.dups:
+            if r != oracle and not case.dups_ns:
                 dis += 1
                 ctx.violation("callsites:CallSiteCountMapper",
                               f"get_num_call_sites on {case.spec} = {r}, Call nodes in the graph: {oracle}",
